@@ -14,7 +14,7 @@ PROP = dict(
     technique="Lean 4 proof (case analysis of the transcribed handler, BitVec bit lemmas) + differential correspondence of the world model "
               "+ history monitor on the implementation's output",
     modules=["TinodeVerif.Props.C03", "TinodeVerif.Props.C02c", "TinodeVerif.Props.C03s"],
-    theorems=[T + n for n in ["writer_both", "pub_refused_no_effect", "pub_allowed_accepted"]] + ["Tinode.Props.C02.reader_cannot_publish", T + "suspended_owner_topics_readonly", T + "suspension_leaves_others"],
+    theorems=[T + n for n in ["writer_both", "pub_refused_no_effect", "pub_allowed_accepted"]] + ["Tinode.Props.C03.sys_pub_needs_nothing", "Tinode.Props.C03.sys_pub_refusals"] + ["Tinode.Props.C02.reader_cannot_publish", T + "suspended_owner_topics_readonly", T + "suspension_leaves_others"],
     streams=[world.world_stream("C03")],
     seeds=dict(quick=1, thorough=4),
     rule="random histories of 30-120 requests per case (420 cases quick, 600 thorough per seed, every third a clause scenario with random parameters) over 4 users, 7 sessions (two per user, "
